@@ -1,1 +1,122 @@
+//! C40 part (a1): declared SDK layouts (`declare_program!` types) vs the program's own types:
+//! size, alignment, account discriminator, and offsets of every field that is `pub` on both sides.
+//! (Private program fields are compared functionally: bytes written at the SDK's declared offset are
+//! read back through the program's accessors in `c40.rs`.)
 
+use anchor_lang::Discriminator;
+use gmsol_programs::gmsol_store::{accounts as sa, types as st};
+use gmsol_store::states as ps;
+use std::mem::{align_of, offset_of, size_of};
+use vcommon::{json, Monitor};
+
+macro_rules! acct {
+    ($m:expr, $name:literal, $p:ty, $s:ty) => {{
+        $m.eval();
+        let ok = size_of::<$p>() == size_of::<$s>()
+            && align_of::<$p>() == align_of::<$s>()
+            && <$p as Discriminator>::DISCRIMINATOR == <$s as Discriminator>::DISCRIMINATOR;
+        if ok {
+            $m.count("layout_accounts_equal");
+            $m.nontrivial(format!("acct:{}", $name).as_bytes());
+        } else {
+            $m.violation(
+                "C40:layout:account_size_or_discriminator_differs",
+                json!({"account": $name,
+                    "program": {"size": size_of::<$p>(), "align": align_of::<$p>(), "disc": <$p as Discriminator>::DISCRIMINATOR},
+                    "sdk": {"size": size_of::<$s>(), "align": align_of::<$s>(), "disc": <$s as Discriminator>::DISCRIMINATOR}}),
+            );
+        }
+    }};
+}
+
+macro_rules! ty {
+    ($m:expr, $name:literal, $p:ty, $s:ty) => {{
+        $m.eval();
+        if size_of::<$p>() == size_of::<$s>() && align_of::<$p>() == align_of::<$s>() {
+            $m.count("layout_types_equal");
+            $m.nontrivial(format!("type:{}", $name).as_bytes());
+        } else {
+            $m.violation(
+                "C40:layout:type_size_differs",
+                json!({"type": $name, "program": [size_of::<$p>(), align_of::<$p>()], "sdk": [size_of::<$s>(), align_of::<$s>()]}),
+            );
+        }
+    }};
+}
+
+macro_rules! off {
+    ($m:expr, $name:literal, $p:ty, $s:ty, [$($f:ident),*]) => {{
+        $(
+            $m.eval();
+            if offset_of!($p, $f) == offset_of!($s, $f) {
+                $m.count("layout_pub_field_offsets_equal");
+                $m.nontrivial(format!("off:{}.{}", $name, stringify!($f)).as_bytes());
+            } else {
+                $m.violation(
+                    "C40:layout:field_offset_differs",
+                    json!({"type": $name, "field": stringify!($f), "program": offset_of!($p, $f), "sdk": offset_of!($s, $f)}),
+                );
+            }
+        )*
+    }};
+}
+
+pub fn check(m: &mut Monitor) {
+    // --- every zero-copy account the IDL declares ---
+    acct!(m, "Market", ps::Market, sa::Market);
+    acct!(m, "Store", ps::Store, sa::Store);
+    acct!(m, "Position", ps::Position, sa::Position);
+    acct!(m, "Order", ps::Order, sa::Order);
+    acct!(m, "Deposit", ps::Deposit, sa::Deposit);
+    acct!(m, "Withdrawal", ps::Withdrawal, sa::Withdrawal);
+    acct!(m, "Shift", ps::Shift, sa::Shift);
+    acct!(m, "Glv", ps::Glv, sa::Glv);
+    acct!(m, "GlvDeposit", ps::GlvDeposit, sa::GlvDeposit);
+    acct!(m, "GlvWithdrawal", ps::GlvWithdrawal, sa::GlvWithdrawal);
+    acct!(m, "GlvShift", ps::GlvShift, sa::GlvShift);
+    acct!(m, "GtExchange", ps::gt::GtExchange, sa::GtExchange);
+    acct!(m, "GtExchangeVault", ps::gt::GtExchangeVault, sa::GtExchangeVault);
+    acct!(m, "Oracle", ps::Oracle, sa::Oracle);
+    acct!(m, "PriceFeed", ps::PriceFeed, sa::PriceFeed);
+    acct!(m, "ReferralCodeV2", ps::user::ReferralCodeV2, sa::ReferralCodeV2);
+    acct!(m, "TokenMapHeader", ps::TokenMapHeader, sa::TokenMapHeader);
+    acct!(m, "TradeData", gmsol_store::events::TradeData, sa::TradeData);
+    acct!(m, "UserHeader", ps::UserHeader, sa::UserHeader);
+    acct!(m, "VirtualInventory", ps::market::virtual_inventory::VirtualInventory, sa::VirtualInventory);
+
+    // --- nested zero-copy types that are nameable on the program side ---
+    ty!(m, "MarketConfig", ps::market::config::MarketConfig, st::MarketConfig);
+    ty!(m, "Pool", ps::market::pool::Pool, st::Pool);
+    ty!(m, "PoolStorage", ps::market::pool::PoolStorage, st::PoolStorage);
+    ty!(m, "Pools", ps::market::pool::Pools, st::Pools);
+    ty!(m, "Clocks", ps::market::Clocks, st::Clocks);
+    ty!(m, "OtherState", ps::market::OtherState, st::OtherState);
+    ty!(m, "Indexer", ps::market::Indexer, st::Indexer);
+    ty!(m, "MarketMeta", ps::market::MarketMeta, st::MarketMeta);
+    ty!(m, "PositionState", ps::position::PositionState, st::PositionState);
+    ty!(m, "Amounts", ps::Amounts, st::Amounts);
+    ty!(m, "Factors", ps::Factors, st::Factors);
+    ty!(m, "Addresses", ps::Addresses, st::Addresses);
+    ty!(m, "GtState", ps::gt::GtState, st::GtState);
+    ty!(m, "ActionHeader", ps::common::ActionHeader, st::ActionHeader);
+    ty!(m, "RoleStore", ps::RoleStore, st::RoleStore);
+    ty!(m, "OrderActionParams", ps::OrderActionParams, st::OrderActionParams);
+
+    // --- offsets of fields that are public on both sides ---
+    off!(m, "Position", ps::Position, sa::Position, [bump, store, kind, padding_0, created_at, owner, market_token, collateral_token, state]);
+    off!(m, "PositionState", ps::position::PositionState, st::PositionState, [
+        trade_id, increased_at, updated_at_slot, decreased_at, size_in_tokens, collateral_amount, size_in_usd,
+        borrowing_factor, funding_fee_amount_per_size, long_token_claimable_funding_amount_per_size,
+        short_token_claimable_funding_amount_per_size
+    ]);
+    off!(m, "MarketMeta", ps::market::MarketMeta, st::MarketMeta, [market_token_mint, index_token_mint, long_token_mint, short_token_mint]);
+    off!(m, "Market", ps::Market, sa::Market, [store]);
+    off!(m, "Store", ps::Store, sa::Store, [authority, token_map]);
+    off!(m, "Oracle", ps::Oracle, sa::Oracle, [store]);
+    off!(m, "TokenMapHeader", ps::TokenMapHeader, sa::TokenMapHeader, [store]);
+    off!(m, "ReferralCodeV2", ps::user::ReferralCodeV2, sa::ReferralCodeV2, [code, store, owner]);
+    off!(m, "PriceFeed", ps::PriceFeed, sa::PriceFeed, [authority]);
+    off!(m, "GtExchange", ps::gt::GtExchange, sa::GtExchange, [bump, owner, store, vault]);
+    off!(m, "GtExchangeVault", ps::gt::GtExchangeVault, sa::GtExchangeVault, [bump, store]);
+    off!(m, "Glv", ps::Glv, sa::Glv, [store]);
+}
